@@ -439,5 +439,8 @@ def run(ck, prog, ctx):
 
     # ---- constructors: a field named like a parameter is initialised from that parameter, not from a sibling of the same type
     ck.rule("CTOR", "in a struct literal, the field `f` of a function with a parameter `f` derives from that parameter (DESIGN 3.9)")
+    # the counts that enter Jaccard / Distance go through a conversion helper that must be exact or fail
+    from props.shared import check_exact_conversion
+    check_exact_conversion(ck, "GUARD", prog, "similarity::usize_to_f32", "the set sizes / distances")
     from engines import check_ctors
     check_ctors(ck, "CTOR", prog, r"^src/similarity/defaults\.rs$", floor=3)
